@@ -2737,11 +2737,13 @@ func (dsc *dataStoreCommand) intersectWorker(firstKey string, keyNames ...string
 
 func (dsc *dataStoreCommand) intersectWithLimitWorker(limit int, keyNames ...string) (d *redisDict, wrongType bool) {
 	sets := make([]*redisDict, 0, len(keyNames))
+	missing := false
 	for _, keyName := range keyNames {
 		sk, objExists := dsc.getKeyObjectUnlocked(keyName)
 		if !objExists {
-			d = newRedisDict()
-			return
+			// a missing key is an empty set; the remaining keys are still type checked
+			missing = true
+			continue
 		}
 
 		m := sk.getSet()
@@ -2754,7 +2756,7 @@ func (dsc *dataStoreCommand) intersectWithLimitWorker(limit int, keyNames ...str
 	}
 
 	d = newRedisDict()
-	if len(sets) < 2 {
+	if missing {
 		return
 	}
 
